@@ -187,6 +187,40 @@ CHECKS['C10'] = dict(
     note=TB + 'Traces are recorded by wrapping flip_edge/sweep_move from outside; the sweep RULE (which edge is chosen) is not modelled and need not be.',
     technique='Coq theorem (invariant of the flip automaton for all flip sequences) + kernel-evaluated geometry and trace replay')
 
+CHECKS['C05'] = dict(
+    category='proof',
+    text=('PARTIAL. Proved in Coq (unbounded, solvers as section variables with an explicit contract): the CSS glue of matching / '
+          'union-find / BP-OSD sends each sector syndrome to the right solver and writes the answers to the right halves, so with solvers '
+          'that reproduce their sector syndrome the correction has exactly the measured syndrome for the syndrome of ANY Pauli error and '
+          'error+correction is in the code space; trivial syndrome gives trivial correction; the [z|x] column order and swap of the non-CSS '
+          'BP-OSD mode. Tested on the real libraries on every run: every decoder x declared code x sizes (incl. non-cubic) x deformations '
+          'x noise: constructible, every valid syndrome on tiny codes / weight<=2 and random errors elsewhere, binary length-2n output, '
+          'syndrome reproduced (kernel-evaluated on recorded decodes). Known findings D3b, D5, D6 listed.'),
+    design_ref='DESIGN.md section 5 C05',
+    note=TB + 'PyMatching, ldpc BP+OSD and the union-find clustering/peeling code (uf_support.py) are NOT modelled: their contract is tested, not proved.',
+    technique='Coq theorems on the decoder glue (oracle solvers) + kernel-evaluated syndrome check of recorded decodes; solver contracts tested')
+CHECKS['C06'] = dict(
+    category='proof',
+    text=('PARTIAL. Proved in Coq: the wrapper model keeps no state that feeds back into its answer (history independence for any pure '
+          'solvers); the stale-buffer variant (BP-OSD wrapper before the fix) is refuted by a 2-call witness. Decided on the implementation '
+          'by a differential run: all ordered pairs of valid syndromes on tiny codes (zero and sector-wise-zero included) and random '
+          'histories on one decoder object vs a fresh object, for 17 decoder setups incl. BP-OSD with channel_update and deformed codes; '
+          'caller syndrome arrays (uint8/int32/int64) and cached noise tables compared before/after.'),
+    design_ref='DESIGN.md section 5 C06',
+    note=TB + 'Statefulness of PyMatching / ldpc objects is exactly what the differential run measures; not modelled. Randomised sweep decoders: validity only.',
+    technique='Coq theorem on the decoder-object state machine + differential history test against fresh objects')
+CHECKS['C09'] = dict(
+    category='proof',
+    text=('PARTIAL. Proved in Coq: soundness of the optimality checker (an accepted correction is maximum-likelihood = minimum total LLR '
+          'weight among ALL 2^n corrections of its sector, up to a 1e-6 slack); weights decrease with the flip marginal; any correction with '
+          'the syndrome of e whose sectors are no heavier than those of e succeeds when 2 wt(e) < d (so a minimum-weight solver corrects '
+          'up to half the distance). Kernel-evaluated: the checker on every syndrome of small toric/planar/rotated-planar lattices for '
+          'several noise directions, deformations, axes and rates, with exact rational odds of the stated channel. Tested: every error of '
+          'weight <= (d-1)/2 through matching / union-find, every single-qubit error through the sweep-match decoders.'),
+    design_ref='DESIGN.md section 5 C09',
+    note=TB + 'PyMatching blossom algorithm and the union-find correction radius are not proved; distances used are those certified by C17.',
+    technique='Coq theorems (verified optimality checker, half-distance correction) evaluated in the kernel on real decoder output')
+
 NOT_APPLICABLE = {}
 
 PENDING = ['C02', 'C03', 'C04', 'C05', 'C06', 'C07', 'C08', 'C09', 'C10', 'C11', 'C12', 'C13', 'C14', 'C15',
